@@ -13,7 +13,7 @@ import itertools
 import json
 import logging
 import sys
-from datetime import datetime
+from datetime import datetime, timedelta
 
 import numpy as np
 
@@ -124,11 +124,97 @@ def link_product(viol):
     return n
 
 
+def rules_and_layouts(viol):
+    """(a) info rules of a component (FromInput + FromValue on the same slot) must not change an info that was already exchanged on
+    another slot; (b) a consumer with a fixed mask on a compatible grid in another layout (non-square) connects iff the masks mark
+    the same cells, and both ends then report the consumer's mask"""
+    from finam.tools.connect_helper import FromInput, FromValue
+    n = 0
+
+    class Relay(fm.TimeComponent):
+        def __init__(self, out_units):
+            super().__init__()
+            self._time = T0
+            self._out_units = out_units
+
+        def _next_time(self):
+            return self.time + timedelta(days=1)
+
+        def _initialize(self):
+            self.inputs.add(name="In", time=T0, grid=None, units=None)
+            self.outputs.add(name="Out")
+            self.create_connector(out_info_rules={"Out": [FromInput("In"), FromValue("units", fm.UNITS.Unit(self._out_units))]})
+
+        def _connect(self, start_time):
+            self.try_connect(start_time, push_data={"Out": 0.0})
+
+        def _validate(self):
+            pass
+
+        def _update(self):
+            self._time += timedelta(days=1)
+
+        def _finalize(self):
+            pass
+
+    for out_units in ("s", "km"):
+        n += 1
+        gen = fm.components.CallbackGenerator({"Out": (lambda t: 1.0, fm.Info(time=None, grid=fm.NoGrid(), units="m"))}, start=T0, step=timedelta(days=1))
+        rel = Relay(out_units)
+        cons = fm.components.DebugConsumer({"In": fm.Info(time=None, grid=fm.NoGrid(), units=None)}, start=T0, step=timedelta(days=1))
+        comp = fm.Composition([gen, rel, cons], print_log=False, slot_memory_location=None)
+        gen.outputs["Out"] >> rel.inputs["In"]
+        rel.outputs["Out"] >> cons.inputs["In"]
+        try:
+            comp.connect(T0)
+        except Exception as e:  # noqa
+            viol.append(f"connect of generator(m) -> relay(rules FromInput + FromValue(units={out_units})) -> consumer failed: {type(e).__name__}: {str(e)[:80]}")
+            return n
+        got = rel.inputs["In"].info.units
+        if got != fm.UNITS.Unit("m"):
+            viol.append(f"after connect the relay's input reports units {got} although its source delivers m: a rule on the output slot (units={out_units}) changed the info exchanged on the input slot")
+            return n
+    # (b) fixed masks across layouts
+    shape = (4, 3)                                     # cells of UniformGrid((5, 4))
+    m = np.zeros(shape, dtype=bool)
+    m[0, 1] = m[2, 0] = True
+    for prod_rev, cons_rev in ((False, True), (True, False), (False, False)):
+        for equal in (True, False):
+            n += 1
+            gp = fm.UniformGrid((5, 4), axes_reversed=prod_rev)
+            gc = fm.UniformGrid((5, 4), axes_reversed=cons_rev)
+            mp = m.T if prod_rev else m
+            mc_cells = m if equal else np.roll(m, 1, axis=0)
+            mc = mc_cells.T if cons_rev else mc_cells
+            out = fm.Output("o", fm.Info(time=T0, grid=gp, units="m", mask=mp))
+            inp = fm.Input("i", fm.Info(time=T0, grid=gc, units="m", mask=mc))
+            out >> inp
+            inp.ping()
+            tag = f"producer reversed={prod_rev}, consumer reversed={cons_rev}, masks mark the same cells={equal}"
+            try:
+                inp.exchange_info()
+                ok = True
+            except fm.FinamMetaDataError:
+                ok = False
+            except Exception as e:  # noqa
+                viol.append(f"exchange raised {type(e).__name__}: {str(e)[:80]}: {tag}")
+                return n
+            if ok != equal:
+                viol.append(f"fixed-mask consumer {'accepted' if ok else 'refused'} the producer: {tag}")
+                return n
+            if ok and not np.array_equal(np.asarray(inp.info.mask), mc):
+                viol.append(f"the input does not report the consumer's own mask after the exchange: {tag}")
+                return n
+    return n
+
+
 def main():
     viol = []
     n = copy_with_product(viol)
     if not viol:
         n += link_product(viol)
+    if not viol:
+        n += rules_and_layouts(viol)
     return n, viol
 
 
